@@ -45,6 +45,8 @@ pub fn random_model(r: &mut Rng) -> Model {
         RV::Empty,
         RV::Tuple(vec![]),
         RV::Tuple(vec![RV::Float(2.5)]),
+        RV::Float(f64::NAN),
+        RV::Tuple(vec![RV::Float(f64::NAN), RV::Int(1)]),
     ];
     // now and then a user function shadows a builtin
     if r.chance(1, 5) {
@@ -528,6 +530,28 @@ pub fn check_program(out: &mut Out, ast: &Ast, model: &Model, r: &mut Rng) {
     let is = exec::run_impl(&src, None, model, Entry::StrMut, false);
     out.eval();
     exec::compare(out, "order", &src, model, &rr, &is, Entry::StrMut);
+    // the library's own context type without the recording wrapper around it (a wrapper inherits the provided
+    // methods of the context traits, the HashMapContext may override them): same result, same final context
+    if judged {
+        let log = crate::observe::new_log();
+        let mut plain = api::ctx_from_model(model, &log);
+        let got = api::eval_tree_mut(&tree, &mut plain);
+        out.eval();
+        out.count("runs on the bare HashMapContext");
+        let vars = api::ctx_vars(&plain);
+        let ok = match got.lifted() {
+            None => false,
+            Some(l) => crate::refmodel::eval::outcome_matches(&rr.result, &l),
+        };
+        if !ok || !api::same_vars(&rr.after.vars, &vars) {
+            out.violation(
+                "order/bare-context",
+                format!("{}   [HashMapContext without the recording wrapper; initial context {}]", src, model.show_vars()),
+                format!("{} ; final {}", exec::show_ref_result(&rr.result), rr.after.show_vars()),
+                format!("{} ; final {}", got.show(), api::show_vars(&vars)),
+            );
+        }
+    }
     // the read-only path evaluates in the same order, exactly once (effects of user functions are visible there too)
     {
         let rr_imm = exec::run_ref(ast, model, false);
